@@ -19,7 +19,7 @@ TRUSTED = [
 TIMEOUT = 20
 TYPE_ATOMS = ["int", "int32", "uint64", "float", "string", "bool", "date", "complexfloat", "size", "Rec", "Gen<int>", "Gen<Rec>", "Gen",
               "Nope", "En", "Fl", "T", "int?", "Rec?", "string->int", "Rec->int", "int*", "int*3", "int*0", "int[]", "int[,]", "int[x,y]",
-              "int[2,3]", "int[x:2,y:3]", "int[0]", "int[-1]", "int[x,x]", "int[ ]", "int**?*", "(int)", "(int->string)*", "int->", "->int",
+              "int[2,3]", "int[x:2,y:3]", "int[x:3, y]", "int[x, y:3]", "int[x:3, y]*", "int[x:3, y, z:2]", "int[x, y:3]?", "int[3, y]", "int[x:3,]", "int[0]", "int[-1]", "int[x,x]", "int[ ]", "int**?*", "(int)", "(int->string)*", "int->", "->int",
               "*", "?", "[]", "<>", "Gen<>", "Gen<int,int>", "Gen<Gen<Gen<int>>>", "int<string>", "a.b.c", "Lib.Item", "Lib.", ".Rec", "9x",
               "int32[" + "," * 40 + "]", "int" + "*" * 60, "int" + "?" * 10, "Gen<" * 30 + "int" + ">" * 30, "été", "int #c", "''", "~", "null"]
 TAGGED = ["!record [a]", "!record {fields: [a, b]}", "!record {fields: {a: }}", "!record {fields: {a: {b: c}}}", "!record {fields: 3}",
@@ -65,6 +65,13 @@ def model_with_type(t):
 
 def model_with_field(t):
     return BASE + "Hole: !record\n  fields:\n    f: %s\n    g: [Rec, %s]\n" % (t, t)
+
+
+def model_with_union_case(t):
+    """the type as an inline case of a union, quoted so that brackets and commas inside it do not end the YAML flow sequence"""
+    if "'" in t or t.startswith("!") or "\n" in t or not t:
+        return None
+    return BASE + "Hole: !record\n  fields:\n    h: [Rec, '%s']\n    i: [null, Rec, '%s']\n    j: !vector {items: [int32, '%s']}\n" % (t, t, t)
 
 
 def model_with_expr(e):
@@ -164,6 +171,8 @@ def run(ctx):
     for t in TYPE_ATOMS + TAGGED:
         cases.append(("type", {"m/m.yml": model_with_type(t)}, ok_pkg, "validate"))
         cases.append(("type-in-field", {"m/m.yml": model_with_field(t)}, ok_pkg, "validate"))
+        if model_with_union_case(t):
+            cases.append(("type-in-union-case", {"m/m.yml": model_with_union_case(t)}, ok_pkg, "validate"))
     for e in EXPRS:
         cases.append(("expression", {"m/m.yml": model_with_expr(e)}, ok_pkg, "validate"))
     for _ in range(60 if quick else 600):
@@ -223,7 +232,7 @@ def run(ctx):
         elif rc == 1:
             if not re.search(r"[\w./-]+\.(yml|yaml)|_package\.yml", out):
                 ctx.report("no-file-named:" + kind, "`yardl %s` fails on a %s input without naming a file: %s" % (cmd, kind, out.strip()[:160]), rep)
-            elif kind in ("type", "type-in-field", "expression", "random-expression") and not re.search(r"\.yml:\d+", out):
+            elif kind in ("type", "type-in-field", "type-in-union-case", "expression", "random-expression") and not re.search(r"\.yml:\d+", out):
                 ctx.report("no-line-number:" + kind, "`yardl %s` reports a problem inside a model file without a line number: %s"
                            % (cmd, out.strip()[:160]), rep)
 
